@@ -94,7 +94,7 @@ _G = "groups.d"
 contract(
     CG,
     name="proper",
-    **COMMON,
+    **COMMON, dict_key_positions=False,
     requires=[SYMMETRIC],
     ensures={
         # no edge inside a group
@@ -123,7 +123,7 @@ _MEMBERS = f"all(all({_G}[c][m] in colors and colors[{_G}[c][m]] == c for m in r
 contract(
     CG,
     name="disjoint",
-    **COMMON,
+    **COMMON, dict_key_positions=False,
     ensures={
         "only-vertices": "all(all(result[g][a] in adjacency for a in range(len(result[g]))) for g in range(len(result)))",
         "no-vertex-twice": "all(all(all(all(implies(g1 != g2 or a1 != a2, result[g1][a1] != result[g2][a2]) for a2 in range(len(result[g2]))) for g2 in range(len(result)))"
@@ -131,7 +131,10 @@ contract(
     },
     canaries={"one-group": "len(result) <= 1"},
     ghost=_GHOST2,
-    hints={PUT: _PUT_HINTS},
+    hints={PUT: _PUT_HINTS + [
+        # the vertex filed now is in no group yet (the groups hold earlier keys of `colors`, and dict keys are distinct)
+        "all(all(g0[c][m] != node for m in range(len(g0[c]))) for c in g0)",
+    ]},
     loops={
         LOOP1: Loop(index="i", invariants={"vertices": "all(x in adjacency for x in colors)"}),
         LOOP2: Loop(index="t", seq="CK", invariants={
